@@ -146,8 +146,7 @@ class Ctx:
         md = self.path("md-%s-%d" % (module, len(self.steps)))
         e = dict(os.environ)
         e.update({k: str(v) for k, v in env.items()})
-        if java_opts:
-            e["JAVA_TOOL_OPTIONS"] = java_opts
+        e["JAVA_TOOL_OPTIONS"] = java_opts or "-Xss512m"
         cmd = ["timeout", str(timeout), "tlc", "-workers", str(workers), "-metadir", md, "-cleanup",
                "-noGenerateSpecTE", "-config", os.path.join(SPEC, cfg)]
         cmd += list(extra)
